@@ -407,7 +407,10 @@ def block_diagonalize(
             if scalar_input and not isinstance(result, sympy.MatrixBase):
                 result = sympy.Matrix([[result]])
 
-            if isinstance(result, sympy.Matrix):
+            if isinstance(result, sympy.MatrixBase):
+                # Immutable matrices, e.g. from kronecker_product, do not allow the
+                # item assignments done by the algorithm.
+                result = sympy.Matrix(result)
                 # A perturbation may contain operators that do not appear in H_0.
                 extra = set(find_operators(result)) - set(operators)
                 all_operators = (
